@@ -178,6 +178,32 @@ pub fn alphabet(quick: bool) -> Vec<[f64; 2]> {
     for z in [[f64::NAN, f64::NAN], [f64::INFINITY, f64::INFINITY], [f64::NEG_INFINITY, 0.0], [1.0, f64::NAN], [1.0, 1.0], [f64::INFINITY, 0.0], [1.0, f64::INFINITY]] {
         v.push(z);
     }
+    // ... systematically: finite but overlapping pairs at every magnitude class (tiny, below pi/4, reduction range,
+    // near 2^20), with the low word anywhere from a full overlap down to the odd-mantissa half-ulp tie; and every
+    // combination of special words
+    for e in [-1022, -1021, -1000, -600, -100, -30, -3, -1, 0, 1, 2, 5, 10, 19] {
+        for f in [0u64, 1, (1u64 << 52) - 1, 0x8_0000_0000_0001, 0x5_5555_5555_5555] {
+            let h = tfref::alpha::mk_f64(false, e, f).unwrap();
+            for k in [0, 1, 2, 10, 26, 40, 51, 52, 53] {
+                for m in [1.0, 1.5, 1.0 + 2f64.powi(-52)] {
+                    for s in [1.0, -1.0] {
+                        let lo = s * m * 2f64.powi(e - k);
+                        if lo.is_finite() && lo != 0.0 && !tfref::big::dd_valid(h, lo) {
+                            v.push([h, lo]);
+                            v.push([-h, lo]);
+                        }
+                    }
+                }
+            }
+        }
+    }
+    for h in [f64::INFINITY, f64::NEG_INFINITY, f64::NAN, 0.0, -0.0, 1.0, -3.0, 1e5, 5e-324, f64::MAX] {
+        for lo in [f64::INFINITY, f64::NEG_INFINITY, f64::NAN, 1.0, -1e-3, 5e-324] {
+            if !(h.is_finite() && lo.is_finite() && tfref::big::dd_valid(h, lo)) {
+                v.push([h, lo]);
+            }
+        }
+    }
     for h in [0.7853981633974483, 1.5707963267948966, 3.141592653589793, 6.283185307179586] {
         v.extend(with_los(h, &[0, 1, 30], &[0, (1u64 << 52) - 1], &[]));
     }
